@@ -4,6 +4,7 @@
    the regenerated row equals this one (today's code) or the repaired one. *)
 From Coq Require Import ZArith List Bool String.
 From OG Require Import C15.Model.
+From OG Require Import C16.Model C15.Cmds C15.CmdsProofs.
 Import ListNotations.
 Open Scope string_scope.
 
@@ -31,3 +32,64 @@ Print Assumptions C15_clone_mstid_refuted.
 (* marshal -> unmarshal alone keeps the identifier: the loss is in the deep copy *)
 Example C15_codec_keeps_id : unmarshal tbl_current (marshal tbl_current witness) = witness.
 Proof. vm_compute. reflexivity. Qed.
+
+(* ---- the hand model (Cmds.v): today's variants of the recorded findings fail the statement, the repairs do not ---- *)
+Open Scope Z_scope.
+Definition cfgF : config := {| cfg_expand := false; cfg_expandf := fun c => c |}.
+Definition cfgT : config := {| cfg_expand := true; cfg_expandf := fun c => set_max_mst c (C16.Model.max_mst c + 100) |}.
+Definition first_pick : list Z -> option Z := fun l => nth_error l 0.
+Definition last_pick : list Z -> option Z := fun l => nth_error (rev l) 0.
+Definition cstep0 := apply false true.
+Definition s0 := init_x (init_cat 1 true).
+Definition E (i : Z) (x : xcmd) : entry := (1, i, x).
+
+(* C15-cq-lastruntime-zero: a continuous query that never ran comes back from a snapshot with a last-run instant *)
+Definition log_cq : list entry := [E 2 (Core (CreateNode 1 1)); E 3 (Core (CreateDb 1 1 0 HOUR)); E 4 (CreateCq 1 1 1)].
+Definition s_cq v := fst (x_run cstep0 first_pick v cfgF s0 log_cq).
+Theorem C15_cq_lastruntime_zero_refuted :
+  pp (x_restore v_current (s_cq v_current)) <> pp (s_cq v_current) /\ pp (x_restore v_repaired (s_cq v_repaired)) = pp (s_cq v_repaired).
+Proof. split; [vm_compute; discriminate | vm_compute; reflexivity]. Qed.
+Print Assumptions C15_cq_lastruntime_zero_refuted.
+
+(* C15-datanode-index-not-persisted: the restored replica accepts an applied index the others refuse *)
+Definition log_ix1 : list entry := [E 2 (Core (CreateNode 1 1)); E 3 (UpdateTmpIndex 1 30 1)].
+Definition log_ix2 : list entry := [E 4 (UpdateTmpIndex 1 20 1)].
+Definition s_ix v := fst (x_run cstep0 first_pick v cfgF s0 log_ix1).
+Theorem C15_datanode_index_refuted :
+  snd (x_run cstep0 first_pick v_current cfgF (x_restore v_current (s_ix v_current)) log_ix2) <>
+  snd (x_run cstep0 first_pick v_current cfgF (s_ix v_current) log_ix2) /\
+  snd (x_run cstep0 first_pick v_repaired cfgF (x_restore v_repaired (s_ix v_repaired)) log_ix2) =
+  snd (x_run cstep0 first_pick v_repaired cfgF (s_ix v_repaired) log_ix2).
+Proof. split; [vm_compute; discriminate | vm_compute; reflexivity]. Qed.
+Print Assumptions C15_datanode_index_refuted.
+
+(* C15-dropsubscription-map-order: two policies carry subscription 1; two valid iteration orders drop different ones *)
+Definition log_ds : list entry := [E 2 (Core (CreateNode 1 1)); E 3 (Core (CreateDb 1 1 0 HOUR)); E 4 (Core (CreateRp 1 2 0 HOUR false));
+  E 5 (CreateSub 1 1 1 1 1); E 6 (CreateSub 1 2 1 1 1)].
+Definition s_ds v := fst (x_run cstep0 first_pick v cfgF s0 log_ds).
+Lemma first_valid : pick_valid first_pick.
+Proof. intros l. unfold first_pick. destruct l; cbn; [reflexivity | left; reflexivity]. Qed.
+Lemma last_valid : pick_valid last_pick.
+Proof.
+  intros l. unfold last_pick. destruct (rev l) eqn:Er; cbn.
+  - apply (f_equal (@rev Z)) in Er. rewrite rev_involutive in Er. exact Er.
+  - apply in_rev. rewrite Er. left. reflexivity.
+Qed.
+Theorem C15_dropsubscription_order_refuted :
+  pick_valid first_pick /\ pick_valid last_pick /\
+  exec cstep0 first_pick v_current cfgF (s_ds v_current) (DropSub 1 0 1) <> exec cstep0 last_pick v_current cfgF (s_ds v_current) (DropSub 1 0 1) /\
+  exec cstep0 first_pick v_repaired cfgF (s_ds v_repaired) (DropSub 1 0 1) = exec cstep0 last_pick v_repaired cfgF (s_ds v_repaired) (DropSub 1 0 1).
+Proof. split; [exact first_valid|]. split; [exact last_valid|]. split; [vm_compute; discriminate | vm_compute; reflexivity]. Qed.
+Print Assumptions C15_dropsubscription_order_refuted.
+
+(* what the generated obligation C15_transient_reads_dominated protects (not a defect of today's code; seeded C15-m3): if the
+   join handlers did NOT rewrite ExpandShardsEnable - the switch copied once at start-up - a restored replica would join a
+   store without expanding the groups while the others expand them *)
+Definition v_once : variant := {| v_cqfix := true; v_idxfix := true; v_dsubfix := true; v_rewrite := false |}.
+Definition s_started : xstate := witht s0 (set_t_expand (tt s0) true).
+Definition s_j := fst (x_run cstep0 first_pick v_once cfgT s_started [E 2 (Core (CreateNode 1 1))]).
+Theorem C15_flag_set_once_would_diverge :
+  pp (fst (x_run cstep0 first_pick v_once cfgT (x_restore v_once s_j) [E 3 (Core (CreateNode 2 2))])) <>
+  pp (fst (x_run cstep0 first_pick v_once cfgT s_j [E 3 (Core (CreateNode 2 2))])).
+Proof. vm_compute. discriminate. Qed.
+Print Assumptions C15_flag_set_once_would_diverge.
